@@ -27,11 +27,15 @@ FLOOR_INT = {'internal-exec:back:irow_': 1, 'internal-exec:back:g_irow_': 1, 'in
              'internal-exec:back11:irow_': 1, 'internal-exec:back11:g_irow_': 1, 'internal-exec:back11:a_irow_': 1, 'internal-exec:back11:_irow_': 1,
              'internal-exec:back:internal_': 1, 'internal-exec:back:a_internal_': 1, 'internal-exec:back11:internal_': 1, 'internal-exec:back11:a_internal_': 1,
              'internal-exec:backmp11:internal_transition': 1}
-prop('C02', rules=['rows'], take=['C02.order', 'C02.internal'], floors={**FLOOR_EXT, **FLOOR_INT},
-     explanation=ROWS_EXPL + ' C02.order: on every taken path guard? < switch < exit < switch < action? < switch < entry < switch, each exactly once; C02.internal: internal executors run guard and action only.')
+FLOOR_CASC = {'composite-exit:back': 1, 'composite-exit:back11': 1, 'composite-exit:backmp11': 1, 'composite-entry:back': 1, 'composite-entry:back11': 1, 'composite-entry:backmp11': 1,
+              'region-helper-step:back:region_entry_exit_helper::do_exit': 1, 'region-helper-step:back11:region_entry_exit_helper::do_exit': 1,
+              'region-helper-step:back:region_start_helper::do_start': 1, 'region-helper-step:back11:region_start_helper::do_start': 1,
+              'preprocess-entry:backmp11': 1, 'leaf-behaviour-call:back': 1, 'leaf-behaviour-call:back11': 1, 'leaf-behaviour-call:backmp11': 1}
+prop('C02', rules=['rows', 'cascade', 'kind'], take=['C02.order', 'C02.internal', 'C02.cascade', 'C02.kind'], floors={**FLOOR_EXT, **FLOOR_INT, **FLOOR_CASC},
+     explanation=ROWS_EXPL + ' C02.order: on every taken path guard? < switch < exit < switch < action? < switch < entry < switch, each exactly once; C02.internal: internal executors run guard and action only. C02.cascade: composite exit = substates in ascending region order (recursion to region+1 after the region\'s own exit; backmp11 visit of the active ids), own on_exit, history; composite entry mirrors it. C02.kind: the plain on_entry / on_exit of a state is never invoked on a receiver whose static type is a back-end machine.')
 prop('C19', rules=['rows'], take=['C19.slots'], floors=FLOOR_EXT,
      explanation=ROWS_EXPL + ' C19.slots: the four writes of the active-state id use after_guard, after_exit, after_action, after_entry in this order, interleaved with the behaviours.')
-prop('C09', rules=['rows'], take=['C09.exit-active'], floors={'exit-source-exec:back': 1, 'exit-source-exec:back11': 1, 'exit-source-exec:backmp11': 1},
+prop('C09', rules=['rows', 'cascade'], take=['C09.exit-active', 'C09.entry'], floors={'exit-source-exec:back': 1, 'exit-source-exec:back11': 1, 'exit-source-exec:backmp11': 1},
      explanation=ROWS_EXPL + ' C09.exit-active: an executor whose source is an exit pseudostate has a path returning HANDLED_FALSE before the guard, decided by a test that depends on the owner submachine\'s active-state array.')
 
 prop('C04', rules=['queues', 'flag', 'poolchain'], take=['C04.queue-ops', 'C04.dequeue', 'C04.erase', 'C04.target', 'C04.flag', 'C04.flag-exc', 'C04.flag-drain', 'C04.flag-exit', 'C04.flag-test'],
@@ -46,8 +50,23 @@ prop('C04', rules=['queues', 'flag', 'poolchain'], take=['C04.queue-ops', 'C04.d
              'stored-callable:back:MSGQ': 1, 'stored-callable:back11:MSGQ': 1},
      explanation='Processing-flag typestate (must-analysis T/F over the CFG of process_event_internal, process_completion_transition, start, do_entry, on_entry, on_explicit_entry with summaries of the flag helpers and scope guards): behaviours and the dispatch run with the flag set, pending-event processing runs with it cleared, every exit leaves it cleared, entry sequences hold it through a scope guard. Queue discipline: who-may-call table for every mutating operation on the message queue, deferred queue and event pool; dequeue protocol front < pop_front < invoke of a by-value copy; erase only of an occurrence marked processed; stored callable bound to the submitting machine with the event by value.')
 
-prop('C06', rules=['regions', 'rows', 'C01.mask'], take=['C06.regions', 'C06.or', 'C06.nt', 'C06.row-result', 'C01.mask'],
+prop('C06', rules=['regions', 'rows', 'C01.mask', 'wiring'], take=['C06.regions', 'C06.or', 'C06.nt', 'C06.row-result', 'C01.mask', 'C07.wiring'],
      floors={'region-single:back': 1, 'region-single:back11': 1, 'region-step:back': 1, 'region-step:back11': 1, 'region-end:back': 1, 'region-end:back11': 1,
              'region-entry:back': 1, 'region-entry:back11': 1, 'do_process_event:back': 1, 'do_process_event:back11': 1, 'do_process_event:backmp11': 1,
              'nt-site:back': 1, 'nt-site:back11': 1, 'nt-site:backmp11': 1, 'nt-completion:back': 1, 'nt-completion:back11': 1, **FLOOR_EXT},
      explanation='Region dispatch: every instantiation of the region recursion In<N>::process invokes the cell entries[m_states[N]+1] with (fsm, N, m_states[N], evt) and continues with N+1, starting at 0 and ending at nr_regions with the machine-internal table (backmp11: the for loop 0..nr_regions-1); every write of the accumulated result ORs the old value; do_process_event starts at HANDLED_FALSE and returns the accumulator; no_transition has one call site, on this, with the reported region\'s active id, reachable only through "accumulator is zero" and the containment / direct-call test and unreachable for completion events; row executors return the handled bit / guard-reject / HANDLED_FALSE per path (C06.row-result).')
+
+prop('C07', rules=['rows', 'cascade', 'kind', 'wiring', 'C01.mask'], take=['C07.forward-exec', 'C02.cascade', 'C02.kind', 'C07.wiring', 'C01.mask'],
+     floors={'forward-exec:back:frow': 1, 'forward-exec:back11:frow': 1, 'forward-exec:backmp11:forward_transition': 1, 'wiring:back': 1, 'wiring:back11': 1, **FLOOR_CASC},
+     explanation='Hierarchy: forwarding executors dispatch to their own submachine object exactly once and run no behaviour (C07.forward-exec); a consumed inner event stops outer candidates (C01.mask: bit tests only); cascaded exit / entry order and composite dispatch (C02.cascade, C02.kind); substates are wired to their container last in every constructor so that containment marks and exit-point forwarders are not overwritten (C07.wiring).')
+prop('C03', rules=['cascade'], take=['C03.start-stop', 'C03.region-index'],
+     floors={'start:back': 1, 'start:back11': 1, 'start:backmp11': 1, 'stop:backmp11': 1},
+     explanation='start() rewrites the active ids from the initial states before any entry, then machine entry, initial entries, completion, queue; stop() reaches the composite exit cascade exactly once (backmp11: guarded by the running mark, which is cleared after the cascade); every region helper indexes the active-state array with its own region constant.')
+prop('C08', rules=['cascade'], take=['C08.sites'], floors={'composite-entry:back': 1, 'composite-entry:back11': 1, 'composite-entry:backmp11': 1, 'history-entry:backmp11': 1},
+     explanation='History call sites: composite entry applies the history policy to all regions before explicit overrides and before any entry; backmp11 history entry first sets all active ids, then runs exactly those entries.')
+prop('C10', rules=['cascade'], take=['C10.first'], floors={'internal-start:back': 1, 'internal-start:back11': 1, 'entry-visitor:backmp11': 1},
+     explanation='Completion first: internal_start dispatches the completion event right after the substate entries; backmp11 every state entry is followed by on_state_entry_completed (which inserts the completion occurrence at the front of the pool, see C04.queue-ops).')
+prop('C05', rules=['queues', 'cascade'], take=['C04.queue-ops', 'C04.dequeue', 'C04.erase', 'C04.target', 'C05.clear'],
+     floors={'queue-op:back:DEFQ:push_back': 1, 'queue-op:back11:DEFQ:push_back': 1, 'queue-op:back:DEFQ:pop_front': 1, 'queue-op:back11:DEFQ:pop_front': 1,
+             'queue-op:back:DEFQ:stable_sort': 1, 'queue-op:back11:DEFQ:stable_sort': 1, 'queue-op:backmp11:POOL:push_back': 1, 'queue-op:backmp11:POOL:erase': 1},
+     explanation='Deferred-queue operation discipline: append only (push_back) with the stored callable bound to the deferring machine and the event by value, removal only front/pop_front after copy-out, re-ordering only by stable_sort, clear only on exit when the history policy drops deferred events (C05.clear); backmp11 pool: append / erase-after-mark.')
